@@ -46,6 +46,12 @@ empty @is_you(const int[] v) {
 }
 '''
 
+ORDER_PROG = '''
+int deep(int a, int b, int c, int d) { write(a + b + c + d); write(' '); return a; }
+empty tight(int n, int big) { byte buf[n]; buf[n - 1] = 'X'; write(big); write(' '); write(buf[n - 1]); writeln(); }
+empty @is_you(int n, int big) { int keep = deep(n, deep(1, 2, 3, 4), 5, 6); tight(n, big); tight(n - 1, big); write(keep); }
+'''
+
 # the same inside try bodies: one that is undone (whatever the write routines do on that doomed path must not leak into
 # the committed timeline, e.g. by overwriting the array the defeat condition reads), one that commits, one that is stopped
 CALLER_TT_PROG = '''
@@ -71,6 +77,7 @@ def plan(tier, seed):
     specs += [{'kind': 'bytes_and_bools', 'word': w} for w in (2, 3)]
     specs += [{'kind': 'arrays', 'word': 2 + (i % 3), 'part': i, 'parts': 4, 'seed': seed} for i in range(4)]
     specs += [{'kind': 'constants', 'word': w} for w in (2, 3, 4)]
+    specs += [{'kind': 'single', 'word': w} for w in (2, 3)]
     specs += [{'kind': 'caller', 'word': w, 'seed': seed} for w in (2, 3, 4, 8)]
     return specs
 
@@ -140,6 +147,35 @@ def run_shard(spec):
         expect_run(res, INT_PROG, [str(v) for v in vals], 2, want, f'write(int) 16-bit shard {spec["part"]}', [runner.case_id('i16', v) for v in vals])
         res['exhaustive'] = True
         res['samples'].append({'write_int_16bit': vals[:6] + vals[-3:]})
+    elif k == 'single':
+        # programs that use exactly ONE of the write routines (the routines share loops and exits with one another: a
+        # library trimmed to what a program uses must still contain everything that routine jumps to)
+        word = spec['word']
+        progs = [
+            ('const byte table only', "const byte[] T = ['o', 'k'];\nempty @is_you() { write(T); }\n", [], b'ok'),
+            ('string as bytes only', 'empty @is_you(string s) { write(s is byte[]); }\n', ['converted'], b'converted'),
+            ('const byte[] parameter only', 'empty show(const byte[] p) { writeln(p); }\nempty @is_you(const byte[] a) { show(a); }\n', ['104', '105'], b'hi\n'),
+            ('mutable byte array only', "empty @is_you() { byte[] m = ['m', 'u']; write(m); }\n", [], b'mu'),
+            ('dynamic byte array only', "empty @is_you(int n) { byte d[n]; d[0] = 'd'; d[1] = 'y'; writeln(d); }\n", ['2'], b'dy\n'),
+            ('string only', 'empty @is_you(string s) { write(s); }\n', ['text'], b'text'),
+            ('int only', 'empty @is_you(int n) { write(n); }\n', ['-120'], b'-120'),
+            ('bool only', 'empty @is_you(int n) { write(n > 1); }\n', ['5'], b'true'),
+            ('byte only', 'empty @is_you(int n) { write(n is byte); }\n', ['65'], b'A'),
+            ('newline only', 'empty @is_you() { writeln(); }\n', [], b'\n'),
+            ('nothing written', 'empty @is_you(int n) { n += 1; }\n', ['1'], b''),
+        ]
+        for tag, src, args, want in progs:
+            for unchecked in (False, True):
+                res['evaluations'] += 1
+                run = diff.compile_and_run(src, args, word=word, unchecked=unchecked, max_steps=200_000)
+                case = diff.case_dict(src, args, word, diff.GENEROUS_STACK, unchecked, gen='single routine: ' + tag)
+                if run.kind != 'ok':
+                    runner.fail(res, 'M-WRITE', f'{tag}: {run.kind}: {run.detail}', case)
+                elif run.outcome.out != want or run.outcome.klass != 'WIN':
+                    runner.fail(res, 'M-WRITE', f'{tag}: printed {run.outcome.out!r} ({run.outcome.klass}), expected {want!r}', case, expected=want.decode('latin-1'), observed=run.outcome.brief())
+                else:
+                    res['nontrivial'].append(runner.case_id('single', tag, word, unchecked))
+        res['exhaustive'] = True
     elif k == 'constants':
         # write(int) / writeln(int) of compile-time constants: literals (also beyond the word: the assembler wraps immediates,
         # as upstream's writeln(32768) -> -32768 expects), const variables, folded expressions, byte and bool constants
@@ -229,19 +265,24 @@ def run_shard(spec):
         hi, lo = (1 << (bits - 1)) - 1, -(1 << (bits - 1))
         r = random.Random(spec['seed'] + word)
         vals = [0, 5, -5, 9, 10, 99, 100, -100, hi, lo, hi - 1, lo + 1, 12345, -12345] + [r.randint(lo, hi) for _ in range(30)]
-        for PROG, tt in ((CALLER_PROG, False), (CALLER_TT_PROG, True)):
+        for PROG, tt in ((CALLER_PROG, False), (CALLER_TT_PROG, True), (ORDER_PROG, 'order')):
             want = b''
-            for v in vals:
+            if tt == 'order':
+                # the reserve for the digit buffer in a function compiled AFTER one whose write(int) sat deeper: array of exactly
+                # fitting length, most negative value (longest text)
+                lo = -(1 << (bits - 1))
+                want = b'10 19 ' + (str(lo).encode() + b' X\n') * 2 + b'7'        # deep(1,2,3,4) prints 10 and returns 1; 7 + 1 + 5 + 6 = 19
+            for v in (vals if tt != 'order' else []):
                 if tt:
                     want += b'u' + str(v).encode() + b'true;' + str(v).encode() + b'\ns' + b'0144-777keep4242\n'
                 else:
                     want += str(v).encode() + b'\n' + b'66xyz-777keeptrue4242;' + (b'true' if v == 0 else b'false') + b'z\n' + b'33 '
             CompilerError, _ = env.compiler_error_types()
             base = env.compile_src(PROG, word=word, stack=diff.GENEROUS_STACK)
-            top = 48 if tt else diff.GENEROUS_STACK       # inside try bodies a doomed path may wander through the whole stack: keep it small
-            args = [str(v) for v in vals]
-            ids = [runner.case_id('caller', tt, word, v) for v in vals]
-            g = expect_run(res, PROG, args, word, want, f'caller state around write(int){" inside try blocks" if tt else ""}, word {word}', ids, lines=with_stack(base, top) if tt else base)
+            top = 48 if tt is True else diff.GENEROUS_STACK       # inside try bodies a doomed path may wander through the whole stack: keep it small
+            args = [str(v) for v in vals] if tt != 'order' else ['7', str(-(1 << (bits - 1)))]
+            ids = [runner.case_id('caller', tt, word, v) for v in (vals if tt != 'order' else [0])]
+            g = expect_run(res, PROG, args, word, want, f'caller state around write(int){" inside try blocks" if tt is True else " in a function compiled after a deeper write(int)" if tt else ""}, word {word}', ids, lines=with_stack(base, top) if tt is True else base)
             if g is not None:
                 # smallest stack that reproduces the generous outcome, then the sizes around it
                 lo_s, hi_s = 0, top
@@ -266,7 +307,7 @@ def run_shard(spec):
                     if s >= hi_s and (o.out != want or o.klass != 'WIN'):
                         runner.fail(res, 'M-WRITE', f'caller state disturbed at exactly-sufficient stack {s}', case, expected=want[:200].decode(), observed=o.brief())
                         break
-                    if s < hi_s and not tt and not (o.klass == 'ERROR:stack_overflow' and want.startswith(o.out)):
+                    if s < hi_s and tt is not True and not (o.klass == 'ERROR:stack_overflow' and want.startswith(o.out)):
                         runner.fail(res, 'M-WRITE', f'at stack {s} (below the smallest sufficient size {hi_s}) the run neither overflows cleanly nor prints a prefix: {o.klass} {o.out[-40:]!r}',
                                     case, observed=o.brief())
                         break
